@@ -34,13 +34,14 @@ vars == <<frames, rews, sset, hist>>
 Init == frames = 0 /\ rews = <<>> /\ sset = [k \in {"shape", "types", "colors"} |-> 0] /\ hist = <<>>
 Log(op, a, out, extra) == hist' = Append(hist, <<op, a, out, extra>>)
 
-RECURSIVE Pow2(_)
-Pow2(n) == IF n = 0 THEN 1 ELSE 2 * Pow2(n - 1)
-RECURSIVE Scaled(_, _, _)
-\* 8 * 2^(DExp*(k-1)) * G_k
-Scaled(r, k, j) == IF j > k THEN 0 ELSE r[j] * Pow2(DExp * (k - j)) + Scaled(r, k, j + 1)
+Pow2(n) == 2 ^ n
+\* 8 * 2^(DExp*(k-1)) * G_k = sum_{j <= k} r[j] * 2^(DExp*(k-j)), by Horner's rule (a recursive FUNCTION, not a
+\* RECURSIVE operator, so that the proof system can read the module)
+Scaled(r, k) ==
+  LET f[j \in 0..k] == IF j = 0 THEN 0 ELSE f[j - 1] * Pow2(DExp) + r[j]
+  IN f[k]
 \* the heads-up displays of generate_images: <<has_action, reward numerator, scaled return, done>>
-Hud(r) == <<<<FALSE, 0, 0, FALSE>>>> \o [k \in 1..Len(r) |-> <<TRUE, r[k], Scaled(r, k, 1), k = Len(r)>>]
+Hud(r) == <<<<FALSE, 0, 0, FALSE>>>> \o [k \in 1..Len(r) |-> <<TRUE, r[k], Scaled(r, k), k = Len(r)>>]
 
 Append0 ==
   /\ UNCHANGED <<rews, sset>>
